@@ -1,5 +1,5 @@
 (* Lemmas about the time-clock model (Model/Timelog.v). *)
-From LedgerV Require Import Base.Prelude Model.Timelog.
+From LedgerV Require Import Base.Prelude Model.Timelog Gen.ClockAccount.
 From Coq Require Import Permutation.
 Local Open Scope Z_scope.
 
@@ -896,3 +896,12 @@ Lemma midnight_checkout_lemma e o :
   tx_t e < tx_t o -> tx_t o <= next_midnight (tx_t e) ->
   session_posts true e o = [session_post e o (tx_t e) (tx_t o)].
 Proof. intros H1 H2. rewrite session_posts_one_day by assumption. reflexivity. Qed.
+
+(* ------------------------------------------------------------------ the glue: one resolution rule *)
+(* The model compares the account of a check-out with the accounts of the open check-ins; that is the
+   comparison of what the two lines NAME only if clock_in_directive and clock_out_directive resolve
+   the written text with the same expression.  Gen/ClockAccount.v is regenerated from
+   src/textual.cc on every run; anything but top_account() at both sites fails here. *)
+Lemma clock_lines_resolve_alike_lemma :
+  src_clock_in_root = RootTopAccount /\ src_clock_out_root = RootTopAccount.
+Proof. split; reflexivity. Qed.
